@@ -352,9 +352,11 @@ def distance(s1, s2, only_ub=False, **kwargs):
             # print('i={}, j={}, d={}, skip={}, skipp={}'.format(i,j,d,skip,skipp))
             # print(dtw)
             if dtw[i1 * length + j + 1 - skip] > s.adj_max_dist:
-                if not smaller_found:
+                # A psi-relaxed path can still start in a later row (first column)
+                # or further in the first row
+                if not smaller_found and i >= psi_1b:
                     sc = j + 1
-                if j >= ec:
+                if j >= ec and (i > 0 or j >= psi_2b):
                     break
             else:
                 smaller_found = True
@@ -464,9 +466,11 @@ def warping_paths(s1, s2, psi_neg=True, keep_int_repr=False, **kwargs):
                                      dtw[i0, j + 1] + s.adj_penalty,
                                      dtw[i1, j] + s.adj_penalty)
             if dtw[i1, j + 1] > s.adj_max_dist:
-                if not smaller_found:
+                # A psi-relaxed path can still start in a later row (first column)
+                # or further in the first row
+                if not smaller_found and i >= psi_1b:
                     sc = j + 1
-                if j >= ec:
+                if j >= ec and (i > 0 or j >= psi_2b):
                     break
             else:
                 smaller_found = True
